@@ -112,7 +112,12 @@ impl JsInterpreter {
     pub fn continue_evaluating(&mut self) {
         assert!(self.latest_error.is_none());
         if let Err(err) = self.interpreter.continue_evaluating() {
-            self.latest_error = Some(err.to_string());
+            // Like start_evaluating(), follow the error with the offending
+            // line and a caret (there is no just-submitted line to point into
+            // here, only program lines).
+            let mut lines = vec![err.to_string()];
+            lines.extend(err.get_line_with_pointer_caret(&self.interpreter, None::<String>));
+            self.latest_error = Some(lines.join("\n"));
         } else {
             self.maybe_replace_interpreter();
         }
